@@ -25,7 +25,9 @@ type Ob struct {
 	Script string
 	Values []string
 	Solver string
-	TO     time.Duration
+	// Fallback solvers tried in order when the primary neither says sat nor unsat
+	Fallback []string
+	TO       time.Duration
 	Bound  string
 	// Site identifies the obligation for the known-findings file (static call site / condition).
 	Site string
@@ -81,6 +83,11 @@ type Run struct {
 	replays     int
 	dedup       int
 	siteViol    map[string]*Violation
+	memo        map[string]smt.Result
+	memoHits    []smt.Result
+	overBudget  int
+	fallbacks   int
+	diffs       int
 }
 
 func (r *Run) Thorough() bool { return r.Tier == "thorough" }
@@ -114,7 +121,10 @@ func (r *Run) Sample(s any) {
 	r.mu.Unlock()
 }
 
-// Discharge solves all pending obligations in parallel.
+// Discharge solves all pending obligations: smallest scripts first, in batches; once a violation
+// has been reproduced at a static site, the remaining obligations of that site are not solved
+// again (they are counted as the same violation); when the time budget of the tier is used up the
+// rest is reported inconclusive.
 func (r *Run) Discharge() {
 	r.mu.Lock()
 	obs := r.obs
@@ -123,17 +133,57 @@ func (r *Run) Discharge() {
 	if len(obs) == 0 {
 		return
 	}
-	qs := make([]*smt.Query, len(obs))
 	if d := os.Getenv("VERIF_DUMP"); d != "" {
 		os.MkdirAll(d, 0o755)
 		for _, ob := range obs {
 			os.WriteFile(filepath.Join(d, strings.NewReplacer("/", "_", "[", "_", "]", "_", " ", "_").Replace(ob.Name)+".smt2"), []byte(ob.Script+"\n(check-sat)\n"), 0o644)
 		}
 	}
+	sort.SliceStable(obs, func(i, j int) bool { return len(obs[i].Script) < len(obs[j].Script) })
+	batch := r.pool.N * 6
+	for start := 0; start < len(obs); start += batch {
+		end := start + batch
+		if end > len(obs) {
+			end = len(obs)
+		}
+		r.dischargeBatch(obs[start:end])
+	}
+}
+
+func (r *Run) budget() time.Duration {
+	if r.Thorough() {
+		return 100 * time.Minute
+	}
+	return 12 * time.Minute
+}
+
+func (r *Run) dischargeBatch(obs []*Ob) {
+	var todo []*Ob
+	for _, ob := range obs {
+		if prev, ok := r.siteViol[ob.Site]; ok && ob.Site != "" && !ob.Guard {
+			r.mu.Lock()
+			r.done = append(r.done, obResult{ob: ob, res: smt.Result{Status: "skipped", Solver: "-"}, status: "violation", viol: prev})
+			r.mu.Unlock()
+			continue
+		}
+		if time.Since(r.t0) > r.budget() {
+			r.mu.Lock()
+			r.done = append(r.done, obResult{ob: ob, res: smt.Result{Status: "skipped", Solver: "-"}, status: "inconclusive"})
+			r.mu.Unlock()
+			r.overBudget++
+			continue
+		}
+		todo = append(todo, ob)
+	}
+	obs = todo
+	if len(obs) == 0 {
+		return
+	}
+	qs := make([]*smt.Query, len(obs))
 	for i, ob := range obs {
 		to := ob.TO
 		if to == 0 {
-			to = 60 * time.Second
+			to = 40 * time.Second
 			if r.Thorough() {
 				to = 300 * time.Second
 			}
@@ -146,6 +196,12 @@ func (r *Run) Discharge() {
 	which := make([]int, len(qs))
 	for i, q := range qs {
 		key := q.Solver + "\x00" + strings.Join(q.Values, ",") + "\x00" + q.Script
+		if res, ok := r.memo[key]; ok {
+			which[i] = -1 - len(r.memoHits)
+			r.memoHits = append(r.memoHits, res)
+			r.dedup++
+			continue
+		}
 		if j, ok := uniq[key]; ok {
 			which[i] = j
 			r.dedup++
@@ -156,20 +212,59 @@ func (r *Run) Discharge() {
 		uq = append(uq, q)
 	}
 	ures := r.pool.SolveAll(uq)
+	if r.memo == nil {
+		r.memo = map[string]smt.Result{}
+	}
+	for k, j := range uniq {
+		if ures[j].Status == smt.Sat || ures[j].Status == smt.Unsat {
+			r.memo[k] = ures[j]
+		}
+	}
 	results := make([]smt.Result, len(qs))
 	for i := range qs {
+		if which[i] < 0 {
+			results[i] = r.memoHits[-1-which[i]]
+			results[i].Dur = 0
+			continue
+		}
 		results[i] = ures[which[i]]
 		if uq[which[i]] != qs[i] {
 			results[i].Dur = 0
 		}
 	}
+	r.memoHits = nil
+	// portfolio: unresolved obligations go to their fallback solvers
+	for round := 0; round < 3; round++ {
+		var idx []int
+		var fq []*smt.Query
+		for i, ob := range obs {
+			if results[i].Status != smt.Sat && results[i].Status != smt.Unsat && round < len(ob.Fallback) {
+				q2 := *qs[i]
+				q2.Solver = ob.Fallback[round]
+				idx = append(idx, i)
+				fq = append(fq, &q2)
+			}
+		}
+		if len(fq) == 0 {
+			break
+		}
+		fr := r.pool.SolveAll(fq)
+		for k, i := range idx {
+			r.fallbacks++
+			if fr[k].Status == smt.Sat || fr[k].Status == smt.Unsat {
+				fr[k].Dur += results[i].Dur
+				results[i] = fr[k]
+			}
+		}
+	}
 	// second opinions
 	for i, ob := range obs {
-		if ob.Diff != "" && r.Thorough() && (results[i].Status == smt.Sat || results[i].Status == smt.Unsat) {
+		if ob.Diff != "" && r.Thorough() && (results[i].Status == smt.Sat || results[i].Status == smt.Unsat) && results[i].Dur > 0 {
 			q2 := *qs[i]
 			q2.Solver = ob.Diff
 			q2.Values = nil
 			r2 := r.pool.Solve(&q2)
+			r.diffs++
 			if (r2.Status == smt.Sat || r2.Status == smt.Unsat) && r2.Status != results[i].Status {
 				r.Infra("solvers disagree on %s: %s=%s %s=%s", ob.Name, results[i].Solver, results[i].Status, r2.Solver, r2.Status)
 			}
@@ -355,6 +450,8 @@ func (r *Run) Finish() int {
 		"inconclusive":        inconcl,
 		"replays_run":         r.replays,
 		"identical_scripts_reused": r.dedup,
+		"second_opinion_queries":   r.diffs,
+		"fallback_solver_queries":  r.fallbacks,
 		"families":            fam,
 		"solver_time_s":       solverNanos.Seconds(),
 		"checker_cmd":         fmt.Sprintf("/verif/vcheck run %s --tier %s", r.ID, r.Tier),
@@ -391,8 +488,13 @@ func (r *Run) Finish() int {
 	}
 	fmt.Printf("%s %s: %d obligations, %d discharged, %d violations, %d known, %d inconclusive, solver %.1fs, wall %.1fs\n",
 		r.ID, r.Tier, len(r.done), discharged, nViol, len(knownLines), inconcl, solverNanos.Seconds(), wall)
-	for _, m := range r.infra {
-		fmt.Printf("INCONCLUSIVE property=%s %s\n", r.ID, short(m, 600))
+	if r.overBudget > 0 {
+		r.infra = append(r.infra, fmt.Sprintf("%d obligations not attempted: time budget of the %s tier (%s) used up", r.overBudget, r.Tier, r.budget()))
+	}
+	for i, m := range r.infra {
+		if i < 40 {
+			fmt.Printf("INCONCLUSIVE property=%s %s\n", r.ID, short(m, 600))
+		}
 	}
 	if nViol > 0 {
 		return 1
